@@ -99,7 +99,7 @@ var vc11Extra = []vc11Sym{
 // ---- the statement, on a pair of trees ----------------------------------------------------------------
 
 // vc11Fields: the default-field names (a plain one, one needing quotes, one containing a quote).
-var vc11Fields = []string{"d", "my field", `d"q`}
+var vc11Fields = []string{"d", "my field", `"d"q"`}
 
 func vc11IsLeaf(e *expr.Expression) bool {
 	return e != nil && (e.Op == expr.Literal || e.Op == expr.Wild || e.Op == expr.Regexp)
